@@ -1565,7 +1565,7 @@ MANIFEST = {
             "re-verified with this check; __init__ stores its arguments before qlm_Qlm runs and sets smallqlm, largeQlm to the pair qlm_Qlm returns; "
             "lemmas: Lagrange identity => |s_ij| <= 1 for l = 1..12, convexity identity + induction "
             "step + base => 0 <= q_l <= 1, equal weights => omega_j = 1/cn, eq. (8): gA/gr of the returned frame means = pair average pooled "
-            "over the frames, eq. (9): the prefactor cancels under the normalisation at lag 0.",
+            "over the frames, eq. (9): the prefactor cancels under the normalisation at lag 0. Extension round: every query method (ql_Ql, sij_ql_Ql, w_W_cap, spatial_corr, time_corr) leaves the q_lm / Q_lm arrays held by the object unwritten (frame clause); w_W_cap file cases cover the text twins of both outputs.",
     "note": "floats as reals (A1, s_ij is stored in float32); callee contracts of read_neighbors (C05), sph_harm_l (C08), remove_pbc (C02), "
             "conditional_gr (C13), time_correlation (C14); Y_lm abstract (only the table layout is used); positive weights and cn_i >= 1 as the "
             "property states; preconditions of the correlation methods: N >= 2, rdelta > 0, box lengths >= 2 rdelta, lag-zero correlation "
